@@ -3,7 +3,8 @@
 # worktree of /repo and a scratch copy of the harness (neither /repo nor /verif/evidence is touched).
 # usage: tools/regress_seeds.sh [seed-dir-name ...]      (default: all of /verif/seeded)
 # writes tools/regress_seeds_results.txt (one line per seed: caught / MISSED / patch does not apply);
-# several instances can run side by side with different VERIF_SCRATCH and REGRESS_OUT
+# several instances can run side by side with different VERIF_SCRATCH and REGRESS_OUT; SEED_DIR points
+# at another directory of <PROPERTY><suffix>/patch.diff entries (used for the reverse patches of the fixes)
 set -u
 SCR=${VERIF_SCRATCH:-/tmp/verif_regress}
 OUT=${REGRESS_OUT:-/verif/tools/regress_seeds_results.txt}
@@ -17,9 +18,9 @@ cp /verif/harness/Cargo.lock "$SCR/harness/" 2>/dev/null
 sed -i "s|/repo/|$SCR/repo/|g" "$SCR/harness/probe/Cargo.toml" "$SCR/harness/probe20/Cargo.toml" "$SCR/harness/regen/Cargo.toml" 2>/dev/null
 grep -rl '"/repo' "$SCR/harness" --include=Cargo.toml | xargs -r sed -i "s|\"/repo|\"$SCR/repo|g"
 export VERIF_REPO="$SCR/repo" VERIF_HARNESS_DIR="$SCR/harness" VERIF_EVIDENCE_DIR="$SCR/evidence" VERIF_REPLAY_DIR="$SCR/replay"
-if [ $# -eq 0 ]; then set -- $(ls /verif/seeded); : > "$OUT"; fi
+if [ $# -eq 0 ]; then set -- $(ls ${SEED_DIR:-/verif/seeded}); : > "$OUT"; fi
 for s in "$@"; do
-  d=/verif/seeded/$s
+  d=${SEED_DIR:-/verif/seeded}/$s
   p=${s:0:3}
   patch=$d/patch.diff
   [ -f "$d/patch.rebased.diff" ] && patch=$d/patch.rebased.diff
